@@ -46,7 +46,7 @@ class Hasher:
         self.n += 1
 
 
-def run_program(spec, SG=None, entropy_log=None):
+def run_program(spec, SG=None, entropy_log=None, fault_log=None):
     """interpret a program; returns (digest of everything produced, digest of the deterministic part per repetition)"""
     import random as pyrandom
     import time
@@ -68,6 +68,33 @@ def run_program(spec, SG=None, entropy_log=None):
     time.time, os.urandom, np.random.default_rng = spy("time.time", saved[0]), spy("os.urandom", saved[1]), spy("np.random.default_rng", saved[2])
     import contextlib
     import io
+    from simkit.world import LINES, SimFault
+
+    def repeat(n, s, body):
+        """the deterministic part of a step, repeated; between two repetitions the same computation may be started once more and
+        interrupted at an arbitrary line (the program catches the failure and carries on): complete repetitions stay bit-identical"""
+        fb = s.get("fault_between") if s["reps"] > 1 else None
+        for rep in range(s["reps"]):
+            h = Hasher()
+            if fb and rep == 0:
+                LINES.arm(fb["kind"], 10 ** 12)      # (counting only: the length of one execution in line events)
+            try:
+                body(h)
+            finally:
+                n_lines = LINES.disarm() if (fb and rep == 0) else 0
+            H.add(f"{n}:{s['k']}:{rep}", np.frombuffer(h.h.digest(), dtype=np.uint8))
+            det.append((n, rep, h.h.hexdigest()))
+            if fb and rep == 0:
+                LINES.arm(fb["kind"], max(1, int(fb["frac"] * n_lines)))
+                try:
+                    body(Hasher())
+                except SimFault:
+                    used_faults.append(fb["kind"])
+                except Exception:
+                    pass
+                finally:
+                    LINES.disarm()
+    used_faults = fault_log if fault_log is not None else []
     try:
         with contextlib.redirect_stdout(io.StringIO()):
             sg.manual_seed(spec["seed"])
@@ -121,8 +148,7 @@ def run_program(spec, SG=None, entropy_log=None):
                     # a whole generated DAG program (any ops of the catalogue) in float32: forward and backward digests
                     from simkit.graph import Graph
                     from simkit.core import dec
-                    for rep in range(s["reps"]):
-                        h = Hasher()
+                    def body(h, s=s):
                         G = Graph(SG)
                         for e in s["events"]:
                             try:
@@ -142,25 +168,21 @@ def run_program(spec, SG=None, entropy_log=None):
                                                 h.add(f"g{i}", G.T[i]._grad)
                             except Exception as ex:
                                 h.add("exc", np.frombuffer(type(ex).__name__.encode(), dtype=np.uint8))
-                        H.add(f"{n}:dag:{rep}", np.frombuffer(h.h.digest(), dtype=np.uint8))
-                        det.append((n, rep, h.h.hexdigest()))
+                    repeat(n, s, body)
                 elif k == "gather":
                     # bootstrap-style gather with repeated indices, then backward: rows never drawn must get exactly zero gradient
-                    for rep in range(s["reps"]):
-                        h = Hasher()
+                    def body(h, s=s):
                         x = sg.Tensor(np.array(s["vals"], dtype=np.float32).reshape(s["shape"]), requires_grad=True)
                         y = x[list(s["idx"])]
                         (y * y).sum().backward() if s["reduce"] else y.backward(sg.Tensor(np.array(s["g"], dtype=np.float32).reshape(y.data.shape)))
                         h.add("fw", y.data)
                         h.add("gx", x.grad.data)
-                        H.add(f"{n}:gather:{rep}:gx", x.grad.data)
-                        det.append((n, rep, h.h.hexdigest()))
                         junk = [np.full(s["shape"], float(j) - 3.5, dtype=np.float32) for j in range(8)]      # unrelated allocations in between
                         del junk
+                    repeat(n, s, body)
                 elif k == "leafroot":
                     # backward() with the DEFAULT seed on a scalar leaf, then an accumulating sweep into it
-                    for rep in range(s["reps"]):
-                        h = Hasher()
+                    def body(h, s=s):
                         t = sg.Tensor(np.array(s["v"], dtype=np.float32), requires_grad=True)
                         t.backward()
                         (t * float(s["c"])).backward()
@@ -168,13 +190,10 @@ def run_program(spec, SG=None, entropy_log=None):
                         u.sum().backward()
                         h.add("gt", t.grad.data)
                         h.add("gu", u.grad.data)
-                        H.add(f"{n}:leafroot:{rep}:gt", t.grad.data)
-                        H.add(f"{n}:leafroot:{rep}:gu", u.grad.data)
-                        det.append((n, rep, h.h.hexdigest()))
+                    repeat(n, s, body)
                 elif k == "sumorder":
                     # deterministic part: fixed data, a node with many contributions of spread magnitude, float32
-                    for rep in range(s["reps"]):
-                        h = Hasher()
+                    def body(h, s=s):
                         vals = np.array(s["vals"], dtype=np.float32)
                         x = sg.Tensor(vals.copy(), requires_grad=True)
                         coef = s["coef"]
@@ -209,9 +228,35 @@ def run_program(spec, SG=None, entropy_log=None):
                             total.backward(sg.Tensor(np.array(s["g"], dtype=np.float32)))
                         h.add("fw", total.data)
                         h.add("gx", x.grad.data)
-                        H.add(f"{n}:sumorder:{rep}:fw", total.data)
-                        H.add(f"{n}:sumorder:{rep}:gx", x.grad.data)
-                        det.append((n, rep, h.h.hexdigest()))
+                    repeat(n, s, body)
+                elif k == "conv":
+                    # fixed data through a padded convolution / pooling (kernels that work on padded scratch arrays), forward and backward
+                    def body(h, s=s):
+                        x = sg.Tensor(np.array(s["x"], dtype=np.float32).reshape(s["xs"]), requires_grad=True)
+                        if s["op"] in ("conv1d", "conv2d"):
+                            w = sg.Tensor(np.array(s["w"], dtype=np.float32).reshape(s["ws"]), requires_grad=True)
+                            y = (sg.conv1d if s["op"] == "conv1d" else sg.conv2d)(x, w, None, s["stride"], s["pad"], 1)
+                        else:
+                            w = None
+                            y = getattr(sg, s["op"])(x, s["ks"], s["stride"], s["pad"])
+                        (y * y).sum().backward()
+                        h.add("fw", y.data)
+                        h.add("gx", x.grad.data)
+                        if w is not None:
+                            h.add("gw", w.grad.data)
+                    repeat(n, s, body)
+                elif k == "bn":
+                    # BatchNorm layers (cumulative or exponential running statistics) fed alternately in training mode, then evaluated
+                    layers = [nn.BatchNorm1d(s["c"], momentum=s["momentum"]) for _ in range(s["layers"])]
+                    for step in range(s["steps"]):
+                        for j, bn in enumerate(layers):
+                            out = bn(sg.randn(s["batch"], s["c"]))
+                            H.add(f"{n}:bn{j}:out{step}", out.data)
+                    for j, bn in enumerate(layers):
+                        bn.eval()
+                        H.add(f"{n}:bn{j}:rm", bn.running_mean.data)
+                        H.add(f"{n}:bn{j}:rv", bn.running_var.data)
+                        H.add(f"{n}:bn{j}:eval", bn(sg.ones(2, s["c"])).data)
     finally:
         time.time, os.urandom, np.random.default_rng = saved
     return H.h.hexdigest(), det
@@ -226,7 +271,8 @@ class ReproSim(Sim):
     RUN_TIMEOUT = 300
     SELFTEST_RUNS = 6
     PROBES = ["rand_family", "init_family", "layer_constructor", "dropout", "shuffled_split", "training_steps", "sumorder_float32", "generated_dag_program_float32", "gather_repeated_indices", "default_seed_on_scalar_leaf", "special_seed", "fresh_process_hashseed_0",
-              "fresh_process_hashseed_1", "fresh_process_hashseed_random", "heap_displaced", "in_process_twice", "repetitions_without_reseed"]
+              "fresh_process_hashseed_1", "fresh_process_hashseed_random", "heap_displaced", "in_process_twice", "repetitions_without_reseed",
+              "padded_conv_or_pool_float32", "batch_norm_running_statistics", "interrupted_execution_between_repetitions", "in_process_four_times_with_gc"]
     RULE = ("one run = one generated program over the random-consuming APIs + training steps + float32 multi-contribution graphs, executed over the "
             "matrix (twice in-process, 3 fresh interpreters with different PYTHONHASHSEED / heap layout, r repetitions of the deterministic part); "
             "distinct = multiset of APIs used x matrix; non-trivial = the program consumed randomness and was executed in a fresh process")
@@ -249,7 +295,7 @@ class ReproSim(Sim):
                 return [rng.choice([260, 300, 512])] + [rng.choice([257, 300])] + [1] * (rank - 2) if rank >= 2 else [rng.choice([70000, 100000])]
             return [rng.randint(lo, hi) for _ in range(rank)]
         for _ in range(rng.randint(3, 9)):
-            k = rng.choice(["rand", "rand", "init", "layer", "dropout", "split", "train", "sumorder", "sumorder", "dag", "dag", "gather", "leafroot"])
+            k = rng.choice(["rand", "rand", "init", "layer", "dropout", "split", "train", "sumorder", "sumorder", "dag", "dag", "gather", "leafroot", "conv", "conv", "bn"])
             if k == "rand":
                 fn = rng.choice(["rand", "randn", "normal", "randint"])
                 s = {"k": "rand", "fn": fn, "shape": dims(1, 4, rng.randint(1, 3))}
@@ -275,6 +321,19 @@ class ReproSim(Sim):
                 nel = int(np.prod(shape))
                 s = {"k": "gather", "shape": shape, "vals": [round(rng.uniform(-3, 3), 3) for _ in range(nel)], "idx": idx, "reduce": rng.random() < 0.5,
                      "g": [round(rng.uniform(-2, 2), 3) for _ in range(m * (shape[1] if len(shape) > 1 else 1))], "reps": rng.randint(2, 3)}
+            elif k == "conv":
+                op = rng.choice(["conv1d", "conv1d", "conv2d", "max_pool1d", "avg_pool1d", "max_pool2d", "avg_pool2d"])
+                two = op.endswith("2d")
+                N, C, L = rng.randint(1, 2), rng.randint(1, 3), rng.randint(4, 7)
+                xs = [N, C, L, L] if two else [N, C, L]
+                ks = rng.randint(2, 3)
+                s = {"k": "conv", "op": op, "xs": xs, "x": [round(rng.uniform(-3, 3), 3) for _ in range(int(np.prod(xs)))], "ks": ks, "stride": rng.randint(1, 2),
+                     "pad": rng.randint(1, ks // 2) if not op.startswith("conv") else rng.randint(1, 2), "reps": rng.randint(2, 3)}
+                if op.startswith("conv"):
+                    s["ws"] = [rng.randint(1, 3), C, ks, ks] if two else [rng.randint(1, 3), C, ks]
+                    s["w"] = [round(rng.uniform(-2, 2), 3) for _ in range(int(np.prod(s["ws"])))]
+            elif k == "bn":
+                s = {"k": "bn", "c": rng.randint(1, 4), "momentum": rng.choice([None, None, 0.1, 0.5]), "layers": rng.randint(1, 2), "steps": rng.randint(1, 3), "batch": rng.randint(2, 5)}
             elif k == "leafroot":
                 s = {"k": "leafroot", "v": round(rng.uniform(-3, 3), 3), "c": rng.choice([3.0, -2.0, 0.5]), "reps": rng.randint(2, 3)}
             elif k == "dag":
@@ -295,6 +354,9 @@ class ReproSim(Sim):
                 s = {"k": "sumorder", "vals": [round(rng.uniform(-3, 3), 3) for _ in range(n)], "coef": [rng.choice([1e-3, 3e-2, 0.7, 11.0, 1e3, -2e2, 5e-3]) * rng.uniform(0.5, 1.5) for _ in range(m)],
                      "order": rng.sample(range(m), m), "reduce": rng.random() < 0.5, "g": [round(rng.uniform(-2, 2), 3) for _ in range(n)], "reps": rng.randint(1, 3),
                      "via": rng.choice(["add", "stack", "concat"]), "leaf_direct": rng.random() < 0.3}
+            if s.get("reps", 1) > 1 and rng.random() < (0.7 if k == "conv" else 0.4):
+                # the crash point, as a fraction of the execution's length in line events
+                s["fault_between"] = {"kind": rng.choice(["alloc", "interrupt", "exit"]), "frac": round(rng.uniform(0.02, 0.99), 4)}
             steps.append(s)
         seed = rng.choice([0, 1, 2 ** 32 - 1, 42]) if rng.random() < 0.15 else rng.randrange(2 ** 31)      # all seeds, also the unusual ones
         return {"k": "program", "seed": seed, "steps": steps, "hashseeds": ["0", "1", str(rng.randrange(1, 2 ** 31))], "junk": rng.choice([0, 2000, 20000])}
@@ -324,13 +386,30 @@ class ReproSim(Sim):
         for s in ev["steps"]:
             st.probes[{"rand": "rand_family", "init": "init_family", "layer": "layer_constructor", "dropout": "dropout", "split": "shuffled_split",
                        "train": "training_steps", "sumorder": "sumorder_float32", "dag": "generated_dag_program_float32", "gather": "gather_repeated_indices",
-                       "leafroot": "default_seed_on_scalar_leaf"}[s["k"]]] += 1
+                       "leafroot": "default_seed_on_scalar_leaf", "conv": "padded_conv_or_pool_float32", "bn": "batch_norm_running_statistics"}[s["k"]]] += 1
+            if s.get("fault_between"):
+                st.probes["interrupted_execution_between_repetitions"] += 1
         if ev["seed"] in (0, 1, 2 ** 32 - 1):
             st.probes["special_seed"] += 1
         used = []
         try:
-            d1, det1 = run_program(spec, st.SG, used)
+            flog = []
+            d1, det1 = run_program(spec, st.SG, used, flog)
+            for kind in flog:
+                st.faults["between_repetitions_line_" + kind] += 1
             d2, det2 = run_program(spec, st.SG, used)
+            if any(s["k"] in ("train", "bn", "conv") for s in ev["steps"]):
+                # two more executions with the garbage of the earlier ones collected and the heap disturbed in between (freed addresses
+                # are handed out again: anything keyed by object identity would now meet "old friends")
+                import gc
+                for extra in range(2):
+                    gc.collect()
+                    junk = [np.zeros(3 + (j % 5), dtype=np.float32) for j in range(50 * (extra + 1))]
+                    dx, _ = run_program(spec, st.SG, used)
+                    del junk
+                    if dx != d1:
+                        d2 = dx
+                st.probes["in_process_four_times_with_gc"] += 1
         except Exception as e:
             st.fail("C19.program_raises", f"the program raised {type(e).__name__}: {e}")
         st.probes["in_process_twice"] += 1
